@@ -107,6 +107,9 @@ class FamilyInit(InitMode):
             if not py2v.compat(t, self.fam.field_types[f]):
                 bad(None, f"field {f}: a value of type {t} where the unit declares {self.fam.field_types[f]}")
             t = self.fam.field_types[f]
+        if t == "none" and f in self.fam.declared:
+            t = self.fam.declared[f]
+            v = self.coerce(v, "none", t, None)
         self.assigned.add(f)
         old = self.info.ftype(f)
         if old is None:
@@ -130,6 +133,8 @@ class FamilyInit(InitMode):
                 # only one form is left out: {t: getattr(self, name) for t, name in self.<TABLE>.items()} -- the bound
                 # methods the class-level table names, keyed by type; using it is translated as a dispatch on the type
                 import re
+                if isinstance(ss[0].value, ast.Name) and ss[0].value.id in self.fam.drop_params:
+                    return self.stmts(ss[1:], env)  # a parameter the unit leaves out, stored in a field it leaves out
                 mt = re.fullmatch(r"\{t: getattr\(self, name\) for (?:t, name|\(t, name\)) in self\.(\w+)\.items\(\)\}", ast.unparse(ss[0].value))
                 if not mt or mt.group(1) not in getattr(self.fam, "tables", {}):
                     bad(ss[0], "a field the unit leaves out must be a table of bound methods built from a class-level table")
@@ -160,7 +165,7 @@ class FamilyInit(InitMode):
                     bad(call, f"UserList initial items of type {t}")
                 return self.expr(call.args[0], env, k_ul)
             owner, pdef = self.fam.resolve(par, "__init__")
-            params = init_params(self.tr, pdef)
+            params = init_params(self.tr, pdef, self.fam.drop_params)
             by_name = {kw.arg: kw.value for kw in call.keywords}
             temps, binds = [], []
             for i, (p, pt, has_default) in enumerate(params):
@@ -263,7 +268,7 @@ def inline_call(mode, cls, m, a, ret, k, const_args=None):
             self.ret_val, self.fall_off = saved
 
 
-def init_params(tr: Translator, d: ast.FunctionDef) -> list[tuple[str, object, bool]]:
+def init_params(tr: Translator, d: ast.FunctionDef, drop=()) -> list[tuple[str, object, bool]]:
     a = d.args
     if a.vararg or a.posonlyargs:
         bad(d, "parameter kinds")
@@ -272,6 +277,10 @@ def init_params(tr: Translator, d: ast.FunctionDef) -> list[tuple[str, object, b
     out = []
     for i, p in enumerate(pos):
         has_d = i >= len(pos) - ndef
+        if p.arg in drop:
+            if not has_d or i != len(pos) - 1:
+                bad(d, f"the parameter {p.arg} the unit leaves out must be the last one and have a default")
+            continue  # (any use other than storing it in a field the unit leaves out is an unknown name: refused)
         if has_d and not (isinstance(a.defaults[i - (len(pos) - ndef)], ast.Constant) and a.defaults[i - (len(pos) - ndef)].value is None):
             bad(d, "default other than None")
         out.append((p.arg, ann_type(p.annotation, tr.classes), has_d))
@@ -371,17 +380,46 @@ def inline_properties(nodes: list[ast.ClassDef]) -> None:
             n.body[i] = ast.fix_missing_locations(Sub().visit(m))
 
 
+def effect_properties(nodes: list[ast.ClassDef]) -> None:
+    """A property that is not a pure expression and is only ever *evaluated* (`self.p` as a statement, for the exception it
+    may raise) is a method called at those points."""
+    props = {m.name for n in nodes for m in n.body
+             if isinstance(m, ast.FunctionDef) and [ast.unparse(d) for d in m.decorator_list] == ["property"]}
+    if not props:
+        return
+    for n in nodes:
+        for m in n.body:
+            if isinstance(m, ast.FunctionDef) and m.name in props:
+                m.decorator_list = []
+                continue
+            for st in ast.walk(m):
+                for fld, val in ast.iter_fields(st):
+                    vals = val if isinstance(val, list) else [val]
+                    for i, x in enumerate(vals):
+                        if isinstance(x, ast.Expr) and isinstance(x.value, ast.Attribute) and isinstance(x.value.value, ast.Name) \
+                                and x.value.value.id == "self" and x.value.attr in props:
+                            x.value = ast.fix_missing_locations(ast.copy_location(ast.Call(func=x.value, args=[], keywords=[]), x.value))
+            for x in ast.walk(m):
+                if isinstance(x, ast.Attribute) and isinstance(x.value, ast.Name) and x.value.id == "self" and x.attr in props:
+                    par_ok = any(isinstance(c, ast.Call) and c.func is x for c in ast.walk(m))
+                    if not par_ok:
+                        bad(x, f"the value of the property {x.attr} is used")
+
+
 def add_family(tr: Translator, root: str, nodes: list[ast.ClassDef], userlist: bool, rel: str, skip: tuple = (), spec: dict | None = None) -> None:
     spec = spec or {}
     inline_properties(nodes)
+    effect_properties(nodes)
     fam = Family(tr, root, nodes, userlist)
     fam.skip = set(skip)
     fam.skip_fields = set(spec.get("skip_fields", ()))
+    fam.drop_params = set(spec.get("drop_params", ()))
     fam.inline = set(spec.get("inline", ()))
     fam.param_types = spec.get("param_types", {})
     fam.yield_types = spec.get("yield_types", {})
     fam.return_types = spec.get("return_types", {})
     fam.handler_tables = {}
+    fam.declared = {}
     fam.field_types = {f: ann_type(ast.parse(a, mode="eval").body, tr.classes) for f, a in spec.get("field_types", {}).items()}
     info = ClassInfo(root)
     info.family = fam
@@ -398,12 +436,17 @@ def add_family(tr: Translator, root: str, nodes: list[ast.ClassDef], userlist: b
         for n in fam.nodes[c].body:
             if isinstance(n, ast.FunctionDef):
                 decos = [ast.unparse(d) for d in n.decorator_list]
-                if not set(decos) <= {"override", "classmethod", "property"}:
+                if not set(decos) <= {"override", "classmethod", "property", "abstractmethod"}:
                     bad(n, "decorator")
                 continue
             if isinstance(n, ast.Expr) and isinstance(n.value, ast.Constant) and isinstance(n.value.value, str):
                 continue
             if isinstance(n, ast.AnnAssign) and n.value is None:
+                if isinstance(n.target, ast.Name) and n.target.id not in fam.field_types:
+                    try:
+                        fam.declared[n.target.id] = ann_type(n.annotation, tr.classes)  # a field declared at class level
+                    except py2v.Unsupported:
+                        pass
                 continue
             if isinstance(n, (ast.Assign, ast.AnnAssign)):
                 nm = n.targets[0].id if isinstance(n, ast.Assign) else n.target.id
@@ -432,8 +475,8 @@ def add_family(tr: Translator, root: str, nodes: list[ast.ClassDef], userlist: b
                 continue
             d = r[1]
             a = d.args
-            if a.vararg or a.kwarg or a.posonlyargs or a.defaults or a.kwonlyargs:
-                bad(d, "parameter kinds / defaults")
+            if a.vararg or a.kwarg or a.posonlyargs or a.kwonlyargs or any(not (isinstance(x, ast.Constant) and x.value is None) for x in a.defaults):
+                bad(d, "parameter kinds / defaults")  # (a default of None is allowed: a call that leaves the argument out is refused where it is made)
             def ptype(p):
                 ov = fam.param_types.get(f"{m}.{p.arg}")
                 return ann_type(ast.parse(ov, mode="eval").body if ov else p.annotation, tr.classes)
@@ -444,7 +487,9 @@ def add_family(tr: Translator, root: str, nodes: list[ast.ClassDef], userlist: b
             elif any(isinstance(y, (ast.Yield, ast.YieldFrom)) for st in d.body for y in ast.walk(st)) and isinstance(rt, tuple) and rt[0] == "iter":
                 rt = ("gen", rt[1])
             s = ([(p.arg, ptype(p)) for p in a.args[1:]], rt)
-            if sig is not None and sig != s:
+            if sig is not None and sig != s and py2v.DYN and sig[0] == s[0] and {sig[1], s[1]} == {"any", "none"}:
+                s = (s[0], "any")  # an override annotated `-> None` of a method returning Any: it returns the value None
+            elif sig is not None and sig != s:
                 bad(d, "an override with another signature")
             sig = s
         sigs[m] = sig
@@ -500,7 +545,7 @@ def add_family(tr: Translator, root: str, nodes: list[ast.ClassDef], userlist: b
                                   "\n".join(f"| {fam.tag(c)} => {vals.get(c, some)}" for c in fam.order) + "\nend.")
         for c in fam.order:
             owner, d = ctor_defs[c]
-            params = init_params(tr, d)
+            params = init_params(tr, d, fam.drop_params)
             mode = FamilyInit(tr, info, fam, c, collect)
             mode.assigned = set()
             mode.level = owner
@@ -669,7 +714,21 @@ def emit_method(tr, fam: Family, info, m: str, sig, open_rec=None) -> None:
     root = fam.root
     defs = [fam.resolve(c, m)[1] for c in fam.order if fam.resolve(c, m)]
     # a message parameter that no implementation writes to (or hands on) is read-only: not an in/out parameter
-    muts = [(p, t) for p, t in params if is_mutable(t) and not (t[0] == "pb" and not any(py2v.param_is_written(p, d.body, t[1]) for d in defs))]
+    def only_unpacked(p):
+        """Every use of the Iterable parameter is `*p` or an argument of chain(..): taken as the sequence the caller passes (a
+        one-shot iterator would be consumed by it)."""
+        for d in defs:
+            ok = set()
+            for x in ast.walk(d):
+                if isinstance(x, ast.Starred) and isinstance(x.value, ast.Name) and x.value.id == p:
+                    ok.add(id(x.value))
+                if isinstance(x, ast.Call) and isinstance(x.func, ast.Name) and x.func.id == "chain":
+                    ok |= {id(a) for a in x.args if isinstance(a, ast.Name) and a.id == p}
+            if any(isinstance(x, ast.Name) and x.id == p and id(x) not in ok for st in d.body for x in ast.walk(st)):
+                return False
+        return True
+    muts = [(p, t) for p, t in params if is_mutable(t) and not (t[0] == "pb" and not any(py2v.param_is_written(p, d.body, t[1]) for d in defs))
+            and not (t[0] == "iter" and only_unpacked(p))]
     if not muts:
         py2v.READER_METHODS.add(m)
     if muts:
